@@ -114,11 +114,12 @@ pub fn generate(prop: Prop, seed: u64, run: u64, thorough: bool) -> RunSpec {
         return gen::generate_c14(&mut rng);
     }
     let mut prof = props::profile(prop, thorough);
-    // a quarter of the runs of C06/C08/C09/C12 sample a state and enumerate a family of
+    // one run in 512 (quick) / 32 (thorough) of C06/C08/C09/C12 samples a state and enumerate a family of
     // continuations from it (see variants.rs)
+    let every = if thorough { 32 } else { 512 };
     let enum_mode = match prop {
-        Prop::C12 if run % 4 == 3 => Some("enum-chains"),
-        Prop::C06 | Prop::C08 | Prop::C09 if run % 4 == 3 => Some("enum-prefixes"),
+        Prop::C12 if run % every == every - 1 => Some("enum-chains"),
+        Prop::C06 | Prop::C08 | Prop::C09 if run % every == every - 1 => Some("enum-prefixes"),
         _ => None,
     };
     if enum_mode.is_some() {
